@@ -685,6 +685,85 @@ def feature_modules(thorough=False):
     ld = fb.emit(ir.Load(g, "_tmp", ir.u8))
     fb.ret(fb.emit(ir.Binop(ld, "+", a, "__r", ir.u8)))
     done("names:leading-underscore", fb, [("_start", ["u8"])])
+
+    # --- local / global name collisions: a parameter or local value may carry the name of a module-level symbol
+    # (the C front-end names a parameter after the C identifier: `int total; int twice(int total)`); references
+    # inside the function mean the local one.  Operand kinds that the constructors do not type-check (store
+    # value, call argument, return, cast) and same-typed operands (ptr binop, ptr phi) re-read "successfully"
+    # when bound to the wrong symbol, so only structure / behaviour show it.
+    fb = FB("collide1")      # i32 parameter named like a global variable / an external / a function
+    gtot = ir.Variable("total", ir.Binding.GLOBAL, 4, 4, value=b"\x05\x00\x00\x00")
+    gsink = ir.Variable("sink", ir.Binding.GLOBAL, 4, 4)
+    fb.m.add_variable(gtot)
+    fb.m.add_variable(gsink)
+    xshow = ir.ExternalProcedure("show", [ir.i32])
+    xemit = ir.ExternalProcedure("emit", [ir.i32])
+    xget = ir.ExternalFunction("get", [ir.i32], ir.i32)
+    for x in (xshow, xemit, xget):
+        fb.m.add_external(x)
+    fn_h2, (hx,) = fb.function("helper2", "i32", ["i32"])
+    fb.ret(fb.binop(hx, "*", fb.const(5, "i32"), "i32"))
+    fn_h, (hx,) = fb.function("helper", "i32", ["i32"])
+    fb.ret(fb.binop(hx, "+", fb.const(1, "i32"), "i32"))
+    fn, (p_total, p_show, p_helper) = fb.function("f", "i32", ["i32", "i32", "i32"])
+    p_total.name, p_show.name, p_helper.name = "total", "show", "helper"
+    fb.emit(ir.Store(p_total, gsink))                          # store value
+    fb.emit(ir.ProcedureCall(xemit, [p_show]))                 # call argument (procedure)
+    r = fb.emit(ir.FunctionCall(fn_h2, [p_helper], "get", ir.i32))  # call argument; result named like the external
+    fb.emit(ir.ProcedureCall(xemit, [r]))
+    c = fb.cast(p_total, "i64")                                # cast source
+    fb.emit(ir.Store(c, fb.alloc(8, 8)[1]))
+    fb.ret(r)                                                  # return of a local named like an external
+    done("collision:i32-locals-named-like-globals", fb, [("f", ["i32", "i32", "i32"])])
+    fb = FB("collide2")      # same type (ptr) as the global: even type-checked operands (binop, phi) accept the wrong one
+    gbuf = ir.Variable("buf", ir.Binding.GLOBAL, 8, 8, value=bytes(range(8)))
+    fb.m.add_variable(gbuf)
+    xv = ir.ExternalVariable("xbuf")
+    fb.m.add_external(xv)
+    fn_g, _ = fb.function("getp", "ptr", [])
+    fb.ret(fb.const(64, "ptr"))
+    fn, (p_buf, p_xbuf, sel) = fb.function("f", "u64", ["ptr", "ptr", "i8"])
+    p_buf.name, p_xbuf.name = "buf", "xbuf"
+    l, r_, j = fb.new_block("l"), fb.new_block("r"), fb.new_block("j")
+    sum_ = fb.emit(ir.Binop(p_buf, "+", p_xbuf, "getp", ir.ptr))        # binop; result named like a function
+    fb.emit(ir.CJump(sel, "==", fb.const(0, "i8"), l, r_))
+    fb.at(l)
+    fb.emit(ir.Jump(j))
+    fb.at(r_)
+    fb.emit(ir.Jump(j))
+    fb.at(j)
+    ph = fb.emit(ir.Phi("phi", ir.ptr))
+    ph.set_incoming(l, p_buf)                                           # phi inputs
+    ph.set_incoming(r_, sum_)
+    fb.ret(fb.binop(fb.cast(ph, "u64"), "^", fb.cast(sum_, "u64"), "u64"))
+    done("collision:ptr-locals-named-like-globals", fb, [("f", ["ptr", "ptr", "i8"])])
+    fb = FB("collide3")      # local values (not parameters) named like a global variable and like an earlier function
+    gcnt = ir.Variable("count", ir.Binding.GLOBAL, 4, 4, value=b"\x09\x00\x00\x00")
+    fb.m.add_variable(gcnt)
+    fn_h, (hx,) = fb.function("scale", "i32", ["i32"])
+    fb.ret(fb.binop(hx, "*", fb.const(3, "i32"), "i32"))
+    gout = ir.Variable("out", ir.Binding.GLOBAL, 4, 4)
+    fb.m.add_variable(gout)
+    fn_k, (kx,) = fb.function("scale2", "i32", ["i32"])
+    fb.ret(fb.binop(kx, "-", fb.const(2, "i32"), "i32"))
+    fn, (a, b) = fb.function("f", "i32", ["i32", "i32"])
+    gl = fb.emit(ir.Load(gcnt, "f", ir.i32))                            # global read while no local `count` exists yet;
+    v_count = fb.emit(ir.Binop(a, "+", b, "count", ir.i32))             # value named like its own function
+    v_scale = fb.emit(ir.FunctionCall(fn_k, [v_count], "scale", ir.i32))
+    fb.emit(ir.Store(v_scale, gout))
+    fb.emit(ir.Store(v_count, fb.alloc(4, 4)[1]))
+    fb.ret(fb.emit(ir.Binop(fb.binop(v_count, "-", v_scale, "i32"), "+", gl, "sum", ir.i32)))
+    done("collision:values-named-like-globals", fb, [("f", ["i32", "i32"])])
+    fb = FB("collide4")      # a function that uses a global AND a local value of the same name: the serialised
+    gres = ir.Variable("result", ir.Binding.GLOBAL, 4, 4)     # forms name both `result` (C: `int result; ... result = h(a);`)
+    fb.m.add_variable(gres)
+    fn_h, (hx,) = fb.function("h", "i32", ["i32"])
+    fb.ret(fb.binop(hx, "+", fb.const(1, "i32"), "i32"))
+    fn, (a,) = fb.function("f", "i32", ["i32"])
+    v = fb.emit(ir.FunctionCall(fn_h, [a], "result", ir.i32))
+    fb.emit(ir.Store(v, gres))
+    fb.ret(v)
+    done("collision:global-and-local-both-used", fb, [("f", ["i32"])])
     return out
 
 
@@ -719,6 +798,32 @@ int memcpy(int inf, int nan, int undefined, int rol, int ror, int volatile_, int
 { return (inf - nan) * undefined + (rol | ror) - volatile_ + phi * load - store; }
 int f(int a, int b) { return memcpy(a, b, 3, a, b, 5, a, b, 7) + -a; }
 """, "f", ["i32", "i32"]),
+    ("c:local-global-name-collisions", r"""
+extern void show(int v);
+int total = 5;
+int sink;
+int helper(int x) { return x + 1; }
+int twice(int total) { sink = total; show(total); return total + total; }
+int pick(int show, int helper) { return show > helper ? show : helper; }
+int arr_user(int n) { int helper[3]; helper[0] = n; helper[1] = n + 1; helper[2] = 7; return helper[n & 1] + helper[2]; }
+int f(int a) { return twice(a) + arr_user(a) + helper(a) + pick(a, 3) + total; }
+""", "f", ["i32"]),
+    ("c:globals-named-like-front-end-temporaries", r"""
+int tmp = 3;
+int num = 4;
+int phi = 1;
+int alloca = 2;
+int typecast = 9;
+int g_other = 6;
+int step(int x) { return x * g_other; }
+int f(int n) { int s = n + 1; int i; char c = n; for (i = 0; i < (n & 3); i++) { s = s * 2 + step(i) - (s > 4 ? i : c); }
+  return s > 10 ? s - 2 : s + 5; }
+""", "f", ["i32"]),
+    ("c:global-and-temporary-of-the-same-name", r"""
+int result;
+int h(int x) { return x + 1; }
+int f(int a) { result = h(a); return result; }
+""", "f", ["i32"]),
 ]
 
 
@@ -759,7 +864,8 @@ def corpus(ctx, n_irgen, n_c):
                 ctx.cov["frontend_rejected"] = ctx.cov.get("frontend_rejected", 0) + 1
                 continue
             items.append(Item("%s%s" % (key, ":O" + lvl if lvl else ""), m, [(fn, ptys)],
-                              ext=[{"name": "ext", "rets": [project_ir.limbs(k, 4) for k in (3, 1, 4, 1, 5, 9)]}], src=src))
+                              ext=[{"name": x, "rets": [project_ir.limbs(k, 4) for k in (3, 1, 4, 1, 5, 9)]} for x in ("ext", "show")],
+                              src=src))
     for _ in range(n_irgen):
         seed = rng.randrange(1 << 30)
         try:
